@@ -213,7 +213,7 @@ theorem xframe_afterServiceDelete (s : XState) (p : String) (v : Svc) (e : SvcX)
   have h1 : XFrame s s1 := by
     unfold s1
     split
-    · exact XFrame.refl s
+    · exact ⟨rfl, rfl, rfl⟩
     · split
       · exact ⟨h0.loc, h0.peers, h0.coords⟩
       · exact h0
